@@ -21,7 +21,16 @@ const MiB = 1 << 20
 // remote sent n bytes: twice the documented frame cap plus 32 bytes per byte received plus
 // 1 MiB of slack for the background activity of the process.
 func allocBound(n int64) uint64 {
-	return 2*uint64(params.MaxPackageLength) + 32*uint64(n) + MiB
+	return allocBoundN(1, n)
+}
+
+// allocBoundN is the allowance of an input that consists of units separate frames /
+// messages: the constant part (one maximal frame and its decrypted copy) is granted per unit.
+func allocBoundN(units int, n int64) uint64 {
+	if units < 1 {
+		units = 1
+	}
+	return uint64(units)*2*uint64(params.MaxPackageLength) + 32*uint64(n) + MiB
 }
 
 func totalAlloc() uint64 {
@@ -47,16 +56,24 @@ func (a allocProbe) delta() uint64 {
 // checkAlloc judges one input. answered = bytes the node wrote back to the remote in answer:
 // data a request asks for has to be materialised, so it counts like bytes received
 // (request/response amplification is recorded, not judged).
-func checkAlloc(s Sink, surface string, a allocProbe, sent, answered int64, wit interface{}) bool {
+func checkAlloc(s Sink, surface string, a allocProbe, units int, sent, answered int64, wit interface{}) bool {
 	d := a.delta()
 	s.Stat("alloc_checks", 1)
 	s.Stat("alloc_bytes_observed_"+surface, int64(d))
-	if d > allocBound(sent) && answered > 0 {
-		s.Stat("alloc_above_plain_allowance_but_answered_"+surface, 1)
+	if d > allocBound(sent) {
+		s.Stat("alloc_above_single_unit_allowance_"+surface, 1) // explained by the number of units or by the answer
 	}
-	if d > allocBound(sent+answered) {
+	// amplification actually observed (recorded, not judged): allocated bytes per byte received, log2 bucket
+	if sent > 0 {
+		b := 0
+		for r := d / uint64(sent); r > 1; r >>= 1 {
+			b++
+		}
+		s.Seen("alloc_per_byte_received_log2_"+surface, fmt.Sprintf("%02d", b))
+	}
+	if lim := allocBoundN(units, sent+answered); d > lim {
 		s.Violation("C15/allocation-out-of-proportion:"+surface,
-			fmt.Sprintf("the process allocated %d bytes (%.1f MiB) while handling an input of %d bytes (it wrote %d bytes back); allowance 2*MaxPackageLength+32*bytes+1MiB = %d", d, float64(d)/MiB, sent, answered, allocBound(sent+answered)), wit)
+			fmt.Sprintf("the process allocated %d bytes (%.1f MiB) while handling an input of %d bytes in %d frame(s)/message(s) (it wrote %d bytes back); allowance units*2*MaxPackageLength+32*bytes+1MiB = %d", d, float64(d)/MiB, sent, units, answered, lim), wit)
 		return false
 	}
 	return true
